@@ -93,6 +93,9 @@ func alphabet() []reqDef {
 		jsonPost("post-plain", m("query", `{ctxinfo}`), nil),
 		jsonPost("post-echo-var", m("query", `query($s:String){echo(s:$s) ctxinfo}`, "variables", m("s", "S1")), nil),
 		jsonPost("post-echo-novar", m("query", `query($s:String){echo(s:$s) ctxinfo}`), nil),
+		// two texts that differ only in white space INSIDE a string literal
+		jsonPost("post-echo-2sp", m("query", `{echo(s:"a  b")}`), nil),
+		jsonPost("post-echo-1sp", m("query", `{echo(s:"a b")}`), nil),
 		jsonPost("post-empty-object", `{}`, nil),
 		jsonPost("post-invalid-json", `{"query":`, nil),
 		jsonPost("post-headers-member", m("query", `{ctxinfo}`, "headers", m("X-Verif", []string{"from-body"})), nil),
